@@ -50,6 +50,7 @@ type pool struct {
 	idom    []int
 	dom     *graphalg.DomTree
 	simpl   graph.Weighted
+	sx, sy  []float64      // a pair whose xs are already ascending (LOESS keeps such input without copying)
 	sortedW stats.Sample   // a weighted sample of 64-130 points that is ascending with Sorted set
 	xwts    []float64      // weights of extreme but legal magnitude, parallel to fl[2]
 	huge    []float64      // optional: a slice beyond any plausible 'switch algorithm for large n' threshold (nil in most runs)
@@ -207,6 +208,17 @@ func buildPool(g simkit.G) *pool {
 		p.sortedW = stats.Sample{Xs: xs, Weights: ws, Sorted: true}
 		p.trackF("sorted weighted sample Xs", xs)
 		p.trackF("sorted weighted sample Weights", ws)
+		// an already-sorted pair for the fits
+		m := g.Range(5, 14)
+		p.sx, p.sy = mkF(m), mkF(m)
+		v2 := -3.0
+		for i := range p.sx {
+			v2 += 0.1 + g.Unit()
+			p.sx[i] = v2
+			p.sy[i] = 10*g.Unit() - 5
+		}
+		p.trackF("sorted fit xs", p.sx)
+		p.trackF("fit ys for sorted xs", p.sy)
 		// weights of extreme magnitude for the fits
 		p.xwts = mkF(lens[2])
 		sc := []float64{1e120, 1e-120, 1e200, 1e-200}[g.Intn(4)]
@@ -229,7 +241,7 @@ func buildPool(g simkit.G) *pool {
 		p.samples = append(p.samples, stats.Sample{Xs: p.fl[i]})
 	}
 	p.samples = append(p.samples, stats.Sample{Xs: p.fl[0], Weights: p.wts[0]}, stats.Sample{Xs: p.fl[2], Weights: p.wts[2]},
-		stats.Sample{Xs: p.pos[0]}, stats.Sample{Xs: p.pos[1]}, p.sortedW, stats.Sample{Xs: p.sortedW.Xs, Sorted: true})
+		stats.Sample{Xs: p.pos[0]}, stats.Sample{Xs: p.pos[1]}, p.sortedW, stats.Sample{Xs: p.sortedW.Xs, Sorted: true}, stats.Sample{Xs: p.sx, Sorted: true})
 	// ---- tie vectors for UDist ----
 	for i := 0; i < 3; i++ {
 		n1, n2 := g.Range(1, 7), g.Range(1, 7)
@@ -287,7 +299,10 @@ func buildPool(g simkit.G) *pool {
 		eb := make([]graph.Edge, 0, 8)
 		for _, u := range nodes {
 			for e, v := range adj[u] {
-				if in[v] && g.Chance(1, 2) && len(eb) < 8 {
+				// mostly edges whose both ends are kept; now and then a dangling one (its
+				// target is not among the nodes): what the library makes of it is its
+				// business here, but it must not write to the caller's list
+				if (in[v] || g.Chance(1, 4)) && g.Chance(1, 2) && len(eb) < 8 {
 					eb = append(eb, graph.Edge{Node: u, Edge: e})
 				}
 			}
@@ -358,8 +373,13 @@ func buildPool(g simkit.G) *pool {
 		k := &stats.KDE{Sample: p.samples[2+i], Kernel: stats.KDEKernel(g.Intn(2)), Bandwidth: 0.5 + g.Unit()}
 		if i == 1 {
 			k.Sample = p.samples[7] // weighted
-			if g.Chance(1, 2) {
+			switch g.Intn(4) {
+			case 0:
 				k.BoundaryMin, k.BoundaryMax = -10.5, math.Inf(1)
+			case 1:
+				k.BoundaryMin, k.BoundaryMax = math.Inf(-1), 31
+			case 2:
+				k.BoundaryMin, k.BoundaryMax = -12, 33 // doubly bounded: the reflection series
 			}
 		}
 		p.kde = append(p.kde, k)
